@@ -39,15 +39,49 @@ theorem clashLoop_cstep (me : Module) : ∀ (os : List Module) (s : State), CSte
       exact ⟨h1.nest.trans ih.nest, h1.pres.trans ih.pres, h1.quiet.trans ih.quiet, fun h => ih.top (h1.top h),
         fun h => ih.j (h1.j h)⟩
 
+omit ok hfuel in
+theorem clashLoop_flag (me : Module) : ∀ (os : List Module) (s : State),
+    ((clashLoop cfg me os s).2 = true → ∃ o ∈ os, clash me o = true) ∧
+    ((clashLoop cfg me os s).2 = false → ∀ o ∈ os, clash me o = false)
+  | [], s => ⟨fun h => by simp [clashLoop] at h, fun _ o ho => by cases ho⟩
+  | o :: rest, s => by
+    unfold clashLoop
+    cases hc : clash me o with
+    | true => simp only [if_true]; exact ⟨fun _ => ⟨o, by simp, hc⟩, fun h => by cases h⟩
+    | false =>
+      simp only [Bool.false_eq_true, if_false]
+      obtain ⟨h1, h2⟩ := clashLoop_flag me rest (if me.name.isEmpty then s else logAt cfg (fwdTop cfg) 10 s)
+      refine ⟨fun h => ?_, fun h x hx => ?_⟩
+      · obtain ⟨x, hx, hxc⟩ := h1 h; exact ⟨x, by simp [hx], hxc⟩
+      · cases hx with
+        | head => exact hc
+        | tail _ hx' => exact h2 h x hx'
+
+/-- why `connect_module` refuses -/
+inductive RefuseWhy (cfg : Cfg) (s : State) (u : Nat) (h : Hdr) (m : Module) : Prop
+  | badName : (if h.mtype == cfg.mtConnectV2 then cstr s.buf 12 32 else some m.name) = none → RefuseWhy cfg s u h m
+  | range (nm : List Nat) : (if h.mtype == cfg.mtConnectV2 then cstr s.buf 12 32 else some m.name) = some nm →
+      (setAll cfg s.buf h nm m).modId ≠ 0 →
+      ((setAll cfg s.buf h nm m).modId < 1 ∨ (setAll cfg s.buf h nm m).modId > cfg.dynStart) → RefuseWhy cfg s u h m
+  | clash (nm : List Nat) (o : Module) : (if h.mtype == cfg.mtConnectV2 then cstr s.buf 12 32 else some m.name) = some nm →
+      (setAll cfg s.buf h nm m).modId ≠ 0 → o ∈ (s.upd u (setAll cfg s.buf h nm)).mods → o.uid ≠ u →
+      Mgr.clash (setAll cfg s.buf h nm m) o = true → RefuseWhy cfg s u h m
+  | full (nm : List Nat) : (if h.mtype == cfg.mtConnectV2 then cstr s.buf 12 32 else some m.name) = some nm →
+      (setAll cfg s.buf h nm m).modId = 0 → assignId cfg (s.upd u (setAll cfg s.buf h nm)) = none → RefuseWhy cfg s u h m
+
 /-- the two ways `connect_module` ends for a connection that is not connected yet -/
 theorem connect_paths (s : State) (u : Nat) (h : Hdr) (m : Module) (hm : s.find u = some m) (hcn : m.connected = false) :
     (∃ g s2, (∀ x, (g x).uid = x.uid ∧ (g x).closed = x.closed ∧ (g x).subs = x.subs) ∧ CStep cfg (s.upd u g) s2 ∧
-      ((if h.mtype == cfg.mtConnectV2 then cstr s.buf 12 32 else some m.name) = none ∨ True) ∧
+      RefuseWhy cfg s u h m ∧
       connectModule cfg s u h = (removeModule cfg (fwdTop cfg) (logAt cfg (fwdTop cfg) 40 s2) u, false)) ∨
     (∃ nm s2 G s3, (if h.mtype == cfg.mtConnectV2 then cstr s.buf 12 32 else some m.name) = some nm ∧
       CStep cfg (s.upd u (setAll cfg s.buf h nm)) s2 ∧
-      ((∀ x, G x = { x with connected := true }) ∧ (setAll cfg s.buf h nm m).modId ≠ 0 ∨
-        (setAll cfg s.buf h nm m).modId = 0 ∧ ∃ id, ∀ x, G x = { x with modId := id, connected := true }) ∧
+      ((∀ x, G x = { x with connected := true }) ∧ (setAll cfg s.buf h nm m).modId ≠ 0 ∧
+          ¬((setAll cfg s.buf h nm m).modId < 1 ∨ (setAll cfg s.buf h nm m).modId > cfg.dynStart) ∧
+          (∀ o ∈ (s.upd u (setAll cfg s.buf h nm)).mods, o.uid ≠ u → Mgr.clash (setAll cfg s.buf h nm m) o = false) ∧
+          s3.nextDyn = s2.nextDyn ∨
+        (setAll cfg s.buf h nm m).modId = 0 ∧ ∃ id off, assignId cfg (s.upd u (setAll cfg s.buf h nm)) = some (id, off) ∧
+          (∀ x, G x = { x with modId := id, connected := true }) ∧ s3.nextDyn = off) ∧
       s3.mods = (s2.upd u G).mods ∧
       s3.loggers = (if (setAll cfg s.buf h nm m).isLogger then setAdd s2.loggers u else s2.loggers) ∧
       s3.idx = s2.idx ∧ s3.nextUid = s2.nextUid ∧ s3.fail = s2.fail ∧ s3.buf = s2.buf ∧ s3.wlist = s2.wlist ∧
@@ -59,7 +93,7 @@ theorem connect_paths (s : State) (u : Nat) (h : Hdr) (m : Module) (hm : s.find 
   generalize hnr : (if h.mtype == cfg.mtConnectV2 then cstr s.buf 12 32 else some m.name) = nameR
   cases nameR with
   | none =>
-    refine Or.inl ⟨setReq cfg s.buf h, _, fun x => ?_, cstep_refl cfg _, Or.inl rfl, rfl⟩
+    refine Or.inl ⟨setReq cfg s.buf h, _, fun x => ?_, cstep_refl cfg _, RefuseWhy.badName hnr, rfl⟩
     exact ⟨(setReq_closed cfg s.buf h x).1, (setReq_closed cfg s.buf h x).2, (setReq_keeps cfg s.buf h x).2⟩
   | some nm =>
     have hg : ∀ x, (setAll cfg s.buf h nm x).uid = x.uid ∧ (setAll cfg s.buf h nm x).closed = x.closed ∧
@@ -69,36 +103,47 @@ theorem connect_paths (s : State) (u : Nat) (h : Hdr) (m : Module) (hm : s.find 
     dsimp only
     split
     · rename_i hid
+      have hid' : (setAll cfg s.buf h nm m).modId ≠ 0 := by simpa using hid
       split
-      · exact Or.inl ⟨setAll cfg s.buf h nm, _, hg, cstep_refl cfg _, Or.inr trivial, rfl⟩
-      · have hcs := clashLoop_cstep ok hfuel (setAll cfg s.buf h nm m)
+      · rename_i hrg
+        refine Or.inl ⟨setAll cfg s.buf h nm, _, hg, cstep_refl cfg _, RefuseWhy.range nm hnr hid' (by simpa using hrg), rfl⟩
+      · rename_i hrg
+        have hcs := clashLoop_cstep ok hfuel (setAll cfg s.buf h nm m)
+          ((s.upd u (setAll cfg s.buf h nm)).mods.filter (·.uid != u)) (s.upd u (setAll cfg s.buf h nm))
+        have hfl := clashLoop_flag (cfg := cfg) (setAll cfg s.buf h nm m)
           ((s.upd u (setAll cfg s.buf h nm)).mods.filter (·.uid != u)) (s.upd u (setAll cfg s.buf h nm))
         generalize clashLoop cfg (setAll cfg s.buf h nm m)
-          ((s.upd u (setAll cfg s.buf h nm)).mods.filter (·.uid != u)) (s.upd u (setAll cfg s.buf h nm)) = r at hcs
+          ((s.upd u (setAll cfg s.buf h nm)).mods.filter (·.uid != u)) (s.upd u (setAll cfg s.buf h nm)) = r at hcs hfl
         obtain ⟨s2, cl⟩ := r
-        dsimp only at hcs ⊢
+        dsimp only at hcs hfl ⊢
         split
-        · exact Or.inl ⟨setAll cfg s.buf h nm, s2, hg, hcs, Or.inr trivial, rfl⟩
-        · refine Or.inr ⟨nm, s2, fun x => { x with connected := true },
+        · rename_i hcl
+          obtain ⟨o, ho, hoc⟩ := hfl.1 hcl
+          obtain ⟨ho1, ho2⟩ := List.mem_filter.mp ho
+          exact Or.inl ⟨setAll cfg s.buf h nm, s2, hg, hcs,
+            RefuseWhy.clash nm o hnr hid' ho1 (by simpa using ho2) hoc, rfl⟩
+        · rename_i hcl
+          have hcl' : cl = false := by simpa using hcl
+          refine Or.inr ⟨nm, s2, fun x => { x with connected := true },
             { (s2.upd u fun x => { x with connected := true }) with
               loggers := if (setAll cfg s.buf h nm m).isLogger then setAdd s2.loggers u else s2.loggers }, rfl, hcs,
-            Or.inl ⟨fun _ => rfl, by simpa using hid⟩, rfl, rfl, rfl, rfl, rfl, rfl, rfl, rfl, rfl, rfl⟩
+            Or.inl ⟨fun _ => rfl, hid', by simpa using hrg, fun o ho hou => ?_, rfl⟩,
+            rfl, rfl, rfl, rfl, rfl, rfl, rfl, rfl, rfl, rfl⟩
+          exact hfl.2 hcl' o (List.mem_filter.mpr ⟨ho, by simpa using hou⟩)
     · rename_i hid
+      have hid' : (setAll cfg s.buf h nm m).modId = 0 := by simpa using hid
       split
-      · exact Or.inl ⟨setAll cfg s.buf h nm, _, hg, cstep_refl cfg _, Or.inr trivial, rfl⟩
-      · rename_i dynId off _
-        refine Or.inr ⟨nm, { (s.upd u (setAll cfg s.buf h nm)) with nextDyn := off },
+      · rename_i hnone
+        exact Or.inl ⟨setAll cfg s.buf h nm, _, hg, cstep_refl cfg _, RefuseWhy.full nm hnr hid' hnone, rfl⟩
+      · rename_i dynId off hsome
+        refine Or.inr ⟨nm, s.upd u (setAll cfg s.buf h nm),
           fun x => { x with modId := dynId, connected := true },
           { (({ (s.upd u (setAll cfg s.buf h nm)) with nextDyn := off } : State).upd u
               fun x => { x with modId := dynId, connected := true }) with
             loggers := if (setAll cfg s.buf h nm m).isLogger then
               setAdd ({ (s.upd u (setAll cfg s.buf h nm)) with nextDyn := off } : State).loggers u
-              else ({ (s.upd u (setAll cfg s.buf h nm)) with nextDyn := off } : State).loggers }, rfl, ?_,
-          Or.inr ⟨by simpa using hid, dynId, fun _ => rfl⟩, rfl, rfl, rfl, rfl, rfl, rfl, rfl, rfl, rfl, rfl⟩
-        exact ⟨nest_stats rfl rfl rfl rfl rfl rfl rfl rfl,
-          ⟨rfl, rfl, fun _ _ => rfl, fun _ h => h, fun _ m h => ⟨m, h, rfl, id⟩, fun _ _ h => h, fun _ h => h, ⟨[], by simp⟩,
-            List.Sublist.refl _, rfl⟩, qa_same rfl, fun h => top_same ok hfuel h _ rfl rfl rfl,
-          fun h => J_same h rfl rfl rfl⟩
+              else ({ (s.upd u (setAll cfg s.buf h nm)) with nextDyn := off } : State).loggers }, rfl, cstep_refl cfg _,
+          Or.inr ⟨hid', dynId, off, hsome, fun _ => rfl, rfl⟩, rfl, rfl, rfl, rfl, rfl, rfl, rfl, rfl, rfl, rfl⟩
 
 end
 
@@ -732,7 +777,12 @@ theorem seg_connect (q : QuietTo cfg (readOne cfg s rd) s2) : SegGoal cfg a rd e
   · generalize connectRecord cfg (rdState cfg s rd) rd.uid rd.h = rec at q
     rw [hconn] at q
     simp only [if_true] at q
-    exact seg_connect_accepted ok hfuel hperm inv rd hu0 m hm am hget hal hsm s2 evs he hb hc hcn nm s02 G s3 hnr cs hG
+    have hG' : (∀ x, G x = { x with connected := true }) ∧ (setAll cfg (rdState cfg s rd).buf rd.h nm m).modId ≠ 0 ∨
+        (setAll cfg (rdState cfg s rd).buf rd.h nm m).modId = 0 ∧ ∃ id, ∀ x, G x = { x with modId := id, connected := true } := by
+      rcases hG with ⟨h1, h2, _⟩ | ⟨h1, id, off, _, h2, _⟩
+      · exact Or.inl ⟨h1, h2⟩
+      · exact Or.inr ⟨h1, id, h2⟩
+    exact seg_connect_accepted ok hfuel hperm inv rd hu0 m hm am hget hal hsm s2 evs he hb hc hcn nm s02 G s3 hnr cs hG'
       hmods hlog hidx hn hf hbf hw ho hconn rec q
 
 end conn
